@@ -5,16 +5,32 @@
 set -u
 export GOFLAGS=-mod=mod GOPROXY=off GOSUMDB=off GOTOOLCHAIN=local
 V="$(cd "$(dirname "$0")/.." && pwd)"; D="$(realpath "$1")"; shift
-PROPS="${*:-C06 C07 C10 C12 C13 C14 C15 C16 C18 C19}"
+# default: the checks whose binaries contain a package the change touches (a check that links
+# none of the touched packages is the same program as on the unchanged tree)
+affected() {
+  local all="C06 C07 C10 C12 C13 C14 C15 C16 C18 C19" out=""
+  for f in $(grep '^+++ b/' "$D" | sed 's|^+++ b/||'); do
+    case "$f" in
+      asm/*) out="$out C06 C07 C15 C16 C18 C19" ;;
+      emulator/bus/*|emulator/memory/*) out="$out C07 C12 C13 C14 C18" ;;
+      emulator/cpu65c816/*|emulator/cpualt/*) out="$out C07 C12 C14 C18" ;;
+      emulator/*.go) out="$out C12 C14 C18" ;;
+      rom.go|header.go) out="$out C10 C18" ;;
+      *) out="$all" ; break ;;
+    esac
+  done
+  for p in $all; do case " $out " in *" $p "*) printf '%s ' "$p";; esac; done
+}
+PROPS="${*:-$(affected)}"
 M="$(mktemp -d /tmp/benign.XXXXXX)"; trap 'rm -rf "$M"' EXIT
 git -C /repo archive HEAD | tar -x -C "$M"
 (cd "$M" && git init -q . && git apply --whitespace=nowarn "$D") || { echo "$(basename "$D"): PATCH-DOES-NOT-APPLY"; exit 3; }
 rm -rf "$M/.git"
 (cd "$M" && go build ./...) || { echo "$(basename "$D"): DOES-NOT-COMPILE"; exit 3; }
-base=pass; python3 "$V/tools/baseline.py" "$M" >/dev/null 2>&1 || base=FAILS-BASELINE
+base=pass; if [ "${BENIGN_SKIP_BASELINE:-0}" = 1 ]; then base=notrun; else python3 "$V/tools/baseline.py" "$M" >/dev/null 2>&1 || base=FAILS-BASELINE; fi
 res=""
 for p in $PROPS; do
   out="$(VERIF_REPO="$M" "$V/run.sh" "$p" quick 2>&1)"; code=$?
   if [ $code -ne 0 ]; then res="$res $p=exit$code"; echo "--- $p on $(basename "$D"):"; echo "$out" | grep -m2 '^minimised\|^violation\|fail\|error' | cut -c1-500; fi
 done
-echo "$(basename "$D"): baseline=$base alarms:${res:- none}"
+echo "$(basename "$D"): baseline=$base checks=[$PROPS] alarms:${res:- none}"
